@@ -53,9 +53,10 @@ let parse_op (t : string list) : (n, n) op =
 
 let is_purge = function OPurge -> true | _ -> false
 
+let hide_log = ref false
 let obs_of o r lg len wt ks =
   let lg = if is_purge o then sort_log lg else lg in
-  [res_tok r; "e" ^ join "," kvtok lg; "s" ^ tn len ^ ":" ^ tn wt ^ ":" ^ join "," tn ks]
+  [res_tok r; (if !hide_log then "e~" else "e" ^ join "," kvtok lg); "s" ^ tn len ^ ":" ^ tn wt ^ ":" ^ join "," tn ks]
 
 (* direct checks on the implementation's state token against the bounds in force *)
 let st_ok (tok : string) (mw : ZA.t) (ms : ZA.t) : bool =
@@ -71,7 +72,10 @@ let st_ok (tok : string) (mw : ZA.t) (ms : ZA.t) : bool =
 let eval inp obs =
   match split_on ";" inp with
   | [impl; mw; ms] :: ops ->
-    let big = String.length impl > 1 in
+    let has_suffix s suf = let n = String.length s and m = String.length suf in n >= m && String.sub s (n - m) m = suf in
+    let big = has_suffix impl "big" in
+    let nocb = has_suffix impl "n" in   (* built without a callback: the log is unobservable, everything else identical *)
+    hide_log := nocb;
     let mwn = n_of_tok mw and msz = z_of_tok ms in
     let ops = List.filter (fun o -> o <> []) ops in
     (match new0 mwn msz, s_new mwn msz with
